@@ -213,6 +213,158 @@ def custom_error_projects():
     return [("custom-error-same-package", a, None), ("custom-error-mixed", b, None), ("custom-error-slices", c, None)]
 
 
+# ------------------------------------------------------------------ grouped parameter declarations
+#
+# Go lets a signature declare several names with one type: `a, b, c string, n int` is TWO ast fields for four
+# parameters.  A parameter carries the key "grp" (any value); a maximal run of neighbouring parameters with the
+# same "grp" and the same Go type is one field.  project.render_method wants the grouping as index lists under
+# the method key "groups"; with_groups derives them from the parameters (so that a shrinker which deletes a
+# parameter keeps a consistent project).
+
+def with_groups(p):
+    """A copy of the project in which every method with a "grp"-marked parameter carries render_method's "groups"."""
+    p = copy.deepcopy(p)
+    for c in p["controllers"]:
+        for m in c["methods"]:
+            ps = m["params"]
+            if not any(x.get("grp") is not None for x in ps):
+                if [i for g in m.get("groups") or [] for i in g] != list(range(len(ps))):
+                    m.pop("groups", None)      # no marks: a given grouping is kept when it fits the parameters
+                continue
+            groups, k = [], 0
+            while k < len(ps):
+                j = k
+                while (ps[k].get("grp") is not None and j + 1 < len(ps) and ps[j + 1].get("grp") == ps[k]["grp"]
+                       and P.go_type(ps[j + 1]) == P.go_type(ps[k])):
+                    j += 1
+                groups.append(list(range(k, j + 1)))
+                k = j + 1
+            m["groups"] = groups
+    return p
+
+
+def group_shape(m):
+    """The field sizes of a method's signature, e.g. [3, 1] for `a, b, c T, d U`."""
+    return [len(g) for g in m.get("groups") or [[i] for i in range(len(m["params"]))]]
+
+
+def grp(g, params):
+    for x in params:
+        x["grp"] = g
+    return params
+
+
+def grouped_declarations_project():
+    """Deliberate signatures over the positions a multi-name field can take: first, in the middle, last, behind a
+    context, twice in a row; of value, pointer, enum, alias and package-local types; followed by a parameter of
+    another type, by a body, by a slice; the names of one field coming from different places of the request."""
+    q = lambda n, t="string", **kw: prm(n, "query", t, **kw)      # noqa: E731
+    h = lambda n, t="string", **kw: prm(n, "header", t, **kw)     # noqa: E731
+    ms = [
+        # a, b, c T, d U
+        meth("Search", "GET", "/search", grp(0, [q("tenant"), q("region"), q("zone")]) + [q("limit", "int")], "string"),
+        # a T, b, c, d *U, body B        (a field in the middle, pointers, a body behind it)
+        meth("Rename", "POST", "/entries/{id}", [prm("id", "path", "string")]
+             + grp(0, [h("actor", pointer=True), h("reason", pointer=True), h("ticket", pointer=True)])
+             + [prm("entry", "body", "Item")], "Item"),
+        # a, b T, d U                    (a pair)
+        meth("Count", "GET", "/count", grp(0, [q("tenant"), q("region")]) + [q("deep", "bool")], "int"),
+        # a T, b, c, d U                 (the field is last)
+        meth("Tail", "GET", "/tail", [q("deep", "bool")] + grp(0, [q("x", "int"), q("y", "int"), q("z", "int")]), "int"),
+        # ctx, a, b, c T, d U, e V
+        meth("WithCtx", "GET", "/ctx", [dict(CTX)] + grp(0, [q("a", "int64"), q("b", "int64"), q("d", "int64")])
+             + [q("e", "bool", pointer=True), q("f", "float64")], "string"),
+        # a, b, c, d T, e U, f V, g T    (four names; the type of the field comes back later)
+        meth("Four", "GET", "/four/{p1}", grp(0, [q("k1", "ItemKind"), q("k2", "ItemKind"), q("k3", "ItemKind"),
+                                                  q("k4", "ItemKind")])
+             + [prm("p1", "path", "ItemId"), q("n", "uint32"), q("k5", "ItemKind")], "ItemKind"),
+        # a, b, c T, d, e, f U           (two fields in a row)
+        meth("Twice", "GET", "/twice", grp(0, [q("s1"), q("s2"), q("s3")])
+             + grp(1, [q("n1", "int"), q("n2", "int"), q("n3", "int")]), "string"),
+        # names of one field from different places, package-local types, a slice behind the field
+        meth("Mixed", "GET", "/mixed/{t2}", grp(0, [q("t1", "Tag"), prm("t2", "path", "Tag"), h("t3", "Tag")])
+             + [q("xs", "string", slice=True), q("w", "Tag", pointer=True)], "*Dto"),
+        # form fields: a, b, c T, d U, e, f *V
+        meth("Form", "POST", "/form", grp(0, [prm("f1", "form", "string", validator="required"),
+                                              prm("f2", "form", "string", alias="second"), prm("f3", "form", "string")])
+             + [prm("f4", "form", "int")] + grp(1, [prm("f5", "form", "bool", pointer=True),
+                                                    prm("f6", "form", "bool", pointer=True)]), None),
+        # a, b, c T, body *B             (a pointer body behind the field)
+        meth("Patch", "PATCH", "/patch", grp(0, [q("u1", "uint"), q("u2", "uint"), q("u3", "uint")])
+             + [prm("dto", "body", "Dto", pointer=True)], "Dto"),
+    ]
+    return {"config": cfg(), "types": ["Item"],
+            "controllers": [{"name": "CatalogCtl", "pkg": "ctl", "tag": "T", "route": "/catalog", "security": [],
+                             "descr": "", "methods": ms[:6]},
+                            {"name": "LedgerCtl", "pkg": "ctlb", "tag": "T", "route": "/ledger", "security": [],
+                             "descr": "", "methods": ms[6:]}]}
+
+
+GROUP_TYPES = ["string", "int", "int64", "bool", "float64", "uint32", "ItemKind", "ItemId", "Tag"]
+
+
+def random_grouped_project(rng, n_methods=7):
+    """Seeded signatures: a sequence of fields of 1-4 names, every field with its own type (value or pointer),
+    every name bound to its own place of the request; optionally a context in front and one body somewhere."""
+    def method(i):
+        sizes = [rng.choice([1, 1, 2, 3, 3, 4]) for _ in range(rng.randint(2, 4))]
+        if max(sizes) < 3 and rng.random() < 0.7:
+            sizes[rng.randrange(len(sizes))] = rng.choice([3, 4])
+        use_form = rng.random() < 0.25
+        body_at = rng.randrange(len(sizes) + 1) if (not use_form and rng.random() < 0.35) else None
+        params, path_names, n = [], [], 0
+        if rng.random() < 0.3:
+            params.append(dict(CTX))
+        last_t = None
+        for gi, size in enumerate(sizes):
+            if body_at == gi:
+                params.append(prm("payload", "body", rng.choice(["Item", "Dto"]), pointer=rng.random() < 0.4))
+                last_t = None
+            t = rng.choice([x for x in GROUP_TYPES if x != last_t])
+            last_t = t
+            ptr = rng.random() < 0.35
+            field = []
+            for _ in range(size):
+                locs = ["query", "query", "header"] + (["form"] if use_form else []) + ([] if ptr else ["path"])
+                loc = rng.choice(locs)
+                name = "v%d%s" % (n, rng.choice(["", "x", "Id"]))
+                n += 1
+                if loc == "path":
+                    if len(path_names) >= 2:
+                        loc = "query"
+                    else:
+                        path_names.append(name)
+                x = prm(name, loc, t, pointer=ptr,
+                        validator=("required" if rng.random() < 0.2 else None),
+                        alias=(name + "_w" if (loc != "path" and rng.random() < 0.2) else None))
+                field.append(x)
+            params += grp(gi, field)
+        if body_at == len(sizes):
+            params.append(prm("payload", "body", rng.choice(["Item", "Dto"]), pointer=rng.random() < 0.4))
+        verb = "POST" if (use_form or body_at is not None) else rng.choice(["GET", "DELETE"])
+        route = "/g%d" % i + "".join("/{%s}" % nm for nm in path_names)
+        return meth("Grp%d" % i, verb, route, params, rng.choice(["string", "int", "Item", "*Item", "Dto", "ItemKind", None]))
+    ms = [method(i) for i in range(n_methods)]
+    cut = rng.randint(2, n_methods - 2)
+    return {"config": cfg(), "types": ["Item"],
+            "controllers": [{"name": "GrpCtlA", "pkg": "ctl", "tag": "T", "route": "/ga", "security": [], "descr": "",
+                             "methods": ms[:cut]},
+                            {"name": "GrpCtlB", "pkg": "ctlb", "tag": "T", "route": "", "security": [], "descr": "",
+                             "methods": ms[cut:]}]}
+
+
+def regroup_random(rng, p):
+    """On a seeded random project: neighbouring parameters of one Go type are declared as one field (`a, b T`),
+    with probability 1/2 per method."""
+    for c in p["controllers"]:
+        for m in c["methods"]:
+            if rng.random() < 0.5:
+                for x in m["params"]:
+                    if not x["ctx"]:
+                        x["grp"] = 0
+    return p
+
+
 def borderline_projects(rng, n_random):
     """Projects the validators of HEAD refuse (a slice outside query/body, a pointer in the path, two bodies, a
     payload mixed with form fields, an 'error' that is no error ...).  C09 has no opinion on whether such a project
@@ -268,6 +420,7 @@ def deliberate_projects():
         "enforce-unsecured", meth("M0", "GET", "/a", [], "string"), enforce=True), "reject"))
     out.append(("bad-verb", one_route_project("bad-verb", meth("M0", "FETCH", "/a", [], "string")), "reject"))
     out.append(("two-packages-same-names", two_package_project(), None))
+    out.append(("grouped-declarations", grouped_declarations_project(), None))
     out.append(("controller-named-RequestAuth", one_route_project(
         "controller-named-RequestAuth", meth("M0", "GET", "/a", [prm("k", "query", "ItemKind")], "string"),
         ctrl="RequestAuth"), None))
@@ -549,7 +702,7 @@ def shrink_failing(c):
     import speccheck
 
     def pred(p):
-        h = servers.build_servers(PROP + "_shrink", [p], engines=[c["engine"]], flags=[c["flags"]],
+        h = servers.build_servers(PROP + "_shrink", [with_groups(p)], engines=[c["engine"]], flags=[c["flags"]],
                                   prepare=render_custom_errors)
         try:
             g = h.generation[0][c["engine"]]
@@ -559,7 +712,7 @@ def shrink_failing(c):
     try:
         if not pred(c["project"]):
             return c["project"]       # only the gofmt/package/alias clause fails: nothing to shrink against
-        return speccheck.shrink_project(c["project"], pred)
+        return with_groups(speccheck.shrink_project(c["project"], pred))
     except Exception as ex:          # shrinking is best effort
         log("shrinking failed: %s" % ex)
         return c["project"]
@@ -707,13 +860,17 @@ def main():
             instances.append((label, p, {}, exp))
         n = 5 if a.tier == "quick" else 40
         opts = {"security": True, "params": True, "multipkg": True, "multifile": True, "enums": True}
+        grng = random.Random(seed * 1000003 + 9)     # its own stream: the other instances of a seed stay what they were
         for _ in range(n):
-            p = mutate_types(rng, P.gen_project(rng, opts))
+            p = regroup_random(grng, mutate_types(rng, P.gen_project(rng, opts)))
             combos = [ALL_COMBOS[0]] + rng.sample(ALL_COMBOS[1:], 2 if a.tier == "quick" else 3)
             for fl in combos:
                 instances.append(("random", p, fl, None))
         for (label, p, exp) in borderline_projects(rng, 3 if a.tier == "quick" else 30):
             instances.append((label, p, rng.choice(ALL_COMBOS), exp))
+        for _ in range(2 if a.tier == "quick" else 20):
+            instances.append(("random-grouped", random_grouped_project(grng), grng.choice(ALL_COMBOS), None))
+    instances = [(lb, with_groups(p), fl, exp) for (lb, p, fl, exp) in instances]
 
     cases, timings = [], []
     BATCH = 32
@@ -837,7 +994,10 @@ def main():
                 "projects (project.gen_project + enum/alias mutation, multi-file, two packages) under three flag sets "
                 "each, and deliberate probes (quote in a scope string, two rejected projects, a controller named like "
                 "a generated identifier, custom error types returned by value / by address next to payload types of "
-                "the same or another package), and borderline projects the validators are expected to refuse (slice "
+                "the same or another package; signatures that declare several names in one field - `a, b, c T, d U` - "
+                "with the field first, in the middle, last, behind a context, twice, of value/pointer/enum/alias/"
+                "package-local types, followed by a body or a slice, also seeded ones and the regrouped neighbours of the "
+                "seeded random projects), and borderline projects the validators are expected to refuse (slice "
                 "typed form/header/path parameters, pointer path parameter, two bodies, body with form fields, struct "
                 "in query/form, an error type that embeds no error; also one such edit on seeded random projects) for "
                 "which either outcome is admitted: refused and no file written, or accepted and the file compiles. "
@@ -865,6 +1025,19 @@ def main():
                 kind: sum(1 for it in instances for cc in it[1]["controllers"] for m in cc["methods"] if sel(m))
                 for kind, sel in (("by_value", lambda m: errtype_of(m) != "error" and not errtype_of(m).startswith("*")),
                                   ("by_address", lambda m: errtype_of(m).startswith("*")))},
+            # signatures with multi-name fields (`a, b, c T, d U`): methods by the size of their largest field, and
+            # those in which a field of three or more names is followed by a further field
+            "signature_fields": {
+                "methods_by_largest_field": {
+                    str(k): sum(1 for it in instances for cc in it[1]["controllers"] for m in cc["methods"]
+                                if max(group_shape(m) or [0]) == k) for k in range(0, 5)},
+                "long_field_followed_by_another": sum(
+                    1 for it in instances for cc in it[1]["controllers"] for m in cc["methods"]
+                    if any(n >= 3 for n in group_shape(m)[:-1])),
+                "files_compiled_of_those": sum(
+                    1 for c in cases if c["file"] and c["file"]["compiles"] and any(
+                        any(n >= 3 for n in group_shape(m)[:-1]) for cc in c["project"]["controllers"] for m in cc["methods"])),
+            },
             # projects HEAD's validators are expected to refuse: what gleece did with them, per engine run
             "borderline": {lb: {"refused": sum(1 for c in cases if c["label"] == lb and not c["gen_ok"]),
                                 "accepted_and_compiled": sum(1 for c in cases if c["label"] == lb and c["gen_ok"]
